@@ -109,7 +109,7 @@ static void do_op(const char *op)
     else if (!strcmp(op, "disk_numrecs")) op_disk_numrecs();
     else if (!strcmp(op, "barrier")) { OUT(" rc=0"); }
     else if (!strcmp(op, "env")) {
-        int i; for (i = 2; i < ntok; i++) { char *e = strchr(tok[i], '='); if (!e) continue; *e = 0; if (e[1]) setenv(tok[i], e[1], 1); else unsetenv(tok[i]); *e = '='; }
+        int i; for (i = 2; i < ntok; i++) { char *e = strchr(tok[i], '='); if (!e) continue; *e = 0; if (e[1]) setenv(tok[i], e + 1, 1); else unsetenv(tok[i]); *e = '='; }
         OUT(" rc=0");
     }
     else if (!strcmp(op, "strerror")) { const char *s = ncmpi_strerror((int)argi("code", 0)); OUT(" rc=0 len=%d", (int)strlen(s ? s : "")); }
